@@ -336,7 +336,7 @@ Definition plugin_read (tg : bool) (term : N) (s : stream) : list N * N * option
 
 (* ---- the count a packet-field ReadFrom returns TOGETHER WITH an error (net/packet/types.go, util.go), as a
    function of the bytes the source delivered before it failed; meaningful when run_flat (read_f fuel t old) s
-   is not FOk.
+   is not FOk.  (Sub-runs use Base.Dec.run_fast = run_flat, linear in the input.)
      Boolean / Byte / UnsignedByte / Angle: 0 (readByte, since fix 4b19f2e also behind an io.ByteReader)
      Short ... Double, UUID, Position: the partial count of io.ReadFull = everything delivered
      VarInt / VarLong: the bytes read so far; "too big" returns the cap
@@ -383,7 +383,7 @@ Fixpoint errn (fuel : nat) (t : fty) (old : fval) (s : list N) : N :=
           let backing := fst (list_of old) ++ snd (list_of old) in
           let olds := if (Z.of_N (lenN backing) <? len)%Z then (fun _ => zero_of e)
                       else (fun i => nth (N.to_nat i) backing (zero_of e)) in
-          n + errn_elems fuel (fun o => run_flat (read_f fuel e o)) (errn fuel e) olds 0 (Z.to_N len) rest
+          n + errn_elems fuel (fun o => run_fast (read_f fuel e o)) (errn fuel e) olds 0 (Z.to_N len) rest
       | _ => errn_len l s
       end
   | TOption e =>
@@ -395,7 +395,7 @@ Fixpoint errn (fuel : nat) (t : fty) (old : fval) (s : list N) : N :=
   | TPair a b =>
       let oa := match old with VPair x _ => x | _ => zero_of a end in
       let ob := match old with VPair _ y => y | _ => zero_of b end in
-      match run_flat (read_f fuel a oa) s with
+      match run_fast (read_f fuel a oa) s with
       | FOk (_, na) rest => na + errn fuel b ob rest
       | _ => 0
       end
